@@ -36,6 +36,16 @@ fn same_frag(a: &FragmentRef, b: &FragmentRef) -> bool {
 	}
 }
 
+thread_local! {
+	/// the options the document under navigation was parsed with (its slices are re-parsed with the same ones)
+	pub static NAV_OPTIONS: RefCell<json_syntax::parse::Options> = RefCell::new(json_syntax::parse::Options::strict());
+}
+
+fn reparse(text: &str) -> Option<Value> {
+	let o = NAV_OPTIONS.with(|o| *o.borrow());
+	Value::parse_str_with(text, o).ok().map(|(x, _)| x)
+}
+
 /// the source text of code-map entry `off` parses to / is the element
 fn span_is(src: &str, cm: &CodeMap, off: usize, f: &FragmentRef) -> bool {
 	let e = match cm.get(off) {
@@ -47,11 +57,11 @@ fn span_is(src: &str, cm: &CodeMap, off: usize, f: &FragmentRef) -> bool {
 		None => return false,
 	};
 	match f {
-		FragmentRef::Value(v) => Value::parse_str(text).map(|(x, _)| x == **v).unwrap_or(false),
-		FragmentRef::Key(k) => Value::parse_str(text).map(|(x, _)| x.as_str() == Some(k.as_str())).unwrap_or(false),
+		FragmentRef::Value(v) => reparse(text).map(|x| x == **v).unwrap_or(false),
+		FragmentRef::Key(k) => reparse(text).map(|x| x.as_str() == Some(k.as_str())).unwrap_or(false),
 		FragmentRef::Entry(en) => {
 			// "key": value  — wrap in braces to parse it as an object with that single entry
-			Value::parse_str(&format!("{{{text}}}")).map(|(x, _)| x.as_object().map(|o| o.len() == 1 && o.entries()[0] == **en).unwrap_or(false)).unwrap_or(false)
+			reparse(&format!("{{{text}}}")).map(|x| x.as_object().map(|o| o.len() == 1 && o.entries()[0] == **en).unwrap_or(false)).unwrap_or(false)
 		}
 	}
 }
